@@ -308,6 +308,9 @@ class BaseSetup:
         <https://docs.scipy.org/doc/scipy/reference/generated/scipy.signal.detrend.html>`_.
         """
         axis = kwargs.pop("axis", 0)
+        # `data` may be the very array the user passed to the setup: never detrend it in place
+        # (scipy's `overwrite_data` only saves a copy, the returned values are the same)
+        kwargs.pop("overwrite_data", None)
         return detrend(data, axis=axis, **kwargs)
 
     # method to detrend data
